@@ -8,6 +8,7 @@ import Mathlib.Algebra.Order.ToIntervalMod
 import Mathlib.Data.Rat.Floor
 import Mathlib.Tactic.Positivity
 import Mathlib.Tactic.NormNum
+import Mathlib.Analysis.SpecialFunctions.Integrals.Basic
 /-
 C12 - grid geometry and coordinate transformations are self-consistent.
 Property theorems about `PdeVerif.Grids` (model of pde/grids/{base,cartesian,spherical,
@@ -1312,5 +1313,45 @@ end
 example : (exCyl : Grid ℚ).WF ∧ (exSph : Grid ℚ).WF ∧ (exCart : Grid ℚ).WF ∧
     (exCyl : Grid ℚ).distSqGrid [2, 1 / 2] [2, 19 / 2] = 1 :=
   ⟨exCyl_wf, exSph_wf, exCart_wf, cyl_seam_distance_fixed⟩
+
+/-! ### 7. the closed forms are the integrals of the volume factors (`K = ℝ`, `pi = π`)
+
+`prim` was introduced above as "the exact measure of `[a, b]` is `prim b - prim a`".  Over the
+reals this is a theorem about the coordinate systems of pde/grids/coordinates: the measure is the
+integral of `_volume_factor` (`r` for polar and cylindrical, `r^2 sin θ` for spherical
+coordinates) over the cell, the symmetric angles running over their full range. -/
+
+section
+open MeasureTheory intervalIntegral Real
+
+/-- annulus: polar volume factor `r` over `φ ∈ [0, 2π]`, `r ∈ [a, b]` -/
+theorem polar_measure_is_integral (a b : ℝ) :
+    prim π .polar 0 b - prim π .polar 0 a = ∫ _φ in (0:ℝ)..(2 * π), ∫ r in a..b, r := by
+  simp only [prim, integral_id, intervalIntegral.integral_const, smul_eq_mul]
+  ring
+
+/-- spherical shell: volume factor `r^2 sin θ` over `φ ∈ [0, 2π]`, `θ ∈ [0, π]`, `r ∈ [a, b]` -/
+theorem spherical_measure_is_integral (a b : ℝ) :
+    prim π .spherical 0 b - prim π .spherical 0 a
+      = ∫ _φ in (0:ℝ)..(2 * π), ∫ θ in (0:ℝ)..π, ∫ r in a..b, r ^ 2 * Real.sin θ := by
+  simp only [prim, intervalIntegral.integral_mul_const, integral_pow, integral_sin,
+    intervalIntegral.integral_const_mul, intervalIntegral.integral_const, smul_eq_mul, Real.cos_pi,
+    Real.cos_zero]
+  ring
+
+/-- cylindrical shell: volume factor `r` over `φ ∈ [0, 2π]`, `z ∈ [z1, z2]`, `r ∈ [a, b]` is the
+product of the measures of the two axes -/
+theorem cylindrical_measure_is_integral (a b z1 z2 : ℝ) :
+    (prim π .cylindrical 0 b - prim π .cylindrical 0 a) * (prim π .cylindrical 1 z2 - prim π .cylindrical 1 z1)
+      = ∫ _φ in (0:ℝ)..(2 * π), ∫ _z in z1..z2, ∫ r in a..b, r := by
+  simp only [prim, if_true, one_ne_zero, if_false, integral_id, intervalIntegral.integral_const, smul_eq_mul]
+  ring
+
+/-- Cartesian axis: length -/
+theorem cartesian_measure_is_integral (a b : ℝ) (ax : ℕ) :
+    prim π .cartesian ax b - prim π .cartesian ax a = ∫ _x in a..b, (1 : ℝ) := by
+  simp [prim]
+
+end
 
 end PdeVerif.Grids
